@@ -36,9 +36,9 @@ import (
 )
 
 func init() {
-	register(target{name: "tree.addraw", per: 120, quick: 24, thorough: 1500, run: func(c *lib.Case, g *guard, n int) { runTree(c, g, n, "addraw") }})
-	register(target{name: "synctree.handlers", per: 120, quick: 24, thorough: 1500, run: func(c *lib.Case, g *guard, n int) { runTree(c, g, n, "handlers") }})
-	register(target{name: "synctree.join", per: 80, quick: 16, thorough: 600, run: func(c *lib.Case, g *guard, n int) { runTree(c, g, n, "join") }})
+	register(target{heavy: true, name: "tree.addraw", per: 120, quick: 24, thorough: 1500, run: func(c *lib.Case, g *guard, n int) { runTree(c, g, n, "addraw") }})
+	register(target{heavy: true, name: "synctree.handlers", per: 120, quick: 24, thorough: 1500, run: func(c *lib.Case, g *guard, n int) { runTree(c, g, n, "handlers") }})
+	register(target{heavy: true, name: "synctree.join", per: 80, quick: 16, thorough: 600, run: func(c *lib.Case, g *guard, n int) { runTree(c, g, n, "join") }})
 }
 
 var bg = context.Background()
